@@ -251,41 +251,61 @@ where
 {
     unsafe fn emplace_unchecked(self, bytes: &mut [u8]) -> Result<&mut FlexVec<T, L>, Error> {
         let offset_size = FlexVec::<T, L>::OFFSET_SIZE;
-        let vec = FlexVec::<T, L>::from_mut_bytes_unchecked(bytes);
+        // Start from the empty state.
+        let vec = unsafe { <Empty as Emplacer<FlexVec<T, L>>>::emplace_unchecked(Empty, bytes) }?;
 
         let mut data = unsafe { vec.as_mut_bytes() };
         let mut pos = 0;
-        let mut last_offset_slot = None::<&mut [u8]>;
+        // Slot of the last emplaced item and the offset from it to the next slot.
+        let mut last = None::<(&mut [u8], usize)>;
+        let mut result = Ok(());
 
         for item_emplacer in self.iter {
             if data.len() < offset_size {
-                return Err(Error {
+                result = Err(Error {
                     kind: ErrorKind::InsufficientSize,
                     pos,
                 });
+                break;
             }
             let (offset_slot, payload) = data.split_at_mut(offset_size);
-            let item = item_emplacer.emplace(payload)?;
+            let item = match item_emplacer.emplace(payload) {
+                Ok(item) => item,
+                Err(e) => {
+                    result = Err(e);
+                    break;
+                }
+            };
             let payload_size = ceil_mul(item.size(), FlexVec::<T, L>::ALIGN);
+
+            // The previous item isn't the last one anymore, so its slot gets the actual offset.
+            if let Some((last_slot, last_offset)) = last.take() {
+                match L::from_usize(last_offset).and_then(|o| if o < L::max_value() { Some(o) } else { None }) {
+                    Some(o) => {
+                        o.emplace(last_slot)?;
+                    }
+                    None => {
+                        last = Some((last_slot, last_offset));
+                        result = Err(Error {
+                            kind: ErrorKind::InsufficientSize,
+                            pos,
+                        });
+                        break;
+                    }
+                }
+            }
             let offset = offset_size + payload_size;
-            L::from_usize(offset)
-                .and_then(|o| if o < L::max_value() { Some(o) } else { None })
-                .ok_or(Error {
-                    kind: ErrorKind::InsufficientSize,
-                    pos,
-                })?
-                .emplace(offset_slot)?;
-            last_offset_slot = Some(offset_slot);
+            last = Some((offset_slot, offset));
 
             data = payload.split_at_mut(payload_size).1;
             pos += offset;
         }
-        match last_offset_slot {
-            Some(offset_slot) => L::max_value().emplace(offset_slot)?,
-            None => L::zero().emplace(data)?,
-        };
+        // The vector is left in a valid state even if not all of the items have been emplaced.
+        if let Some((last_slot, _)) = last {
+            L::max_value().emplace(last_slot)?;
+        }
 
-        Ok(vec)
+        result.map(|()| vec)
     }
 }
 
